@@ -2,6 +2,7 @@
    run by tools/gen/thread.py).  Not imported by Props/C08: this file builds only if the current source satisfies the
    hypotheses (`by decide` on the generated flags), which is exactly the obligation "the property holds for today's code". -/
 import JanetModel.Gen.Thread
+import JanetModel.Gen.ThreadLock
 import JanetModel.Props.C08
 
 namespace JanetModel.Thread.Current
@@ -115,5 +116,25 @@ theorem locks_valid_while_reachable_current (acts : List RAct) :
     (∀ t, s.reach t = true → s.freed = false) ∧ (0 < s.transit → s.freed = false) ∧ s.useAfterFree = false :=
   have _ := lock_types_shape
   shared_valid_while_reachable rcfg (by decide) (by decide) (by decide) acts
+
+/-- lock discipline of today's ev.c: the kernel evaluates the path checker on the regenerated statement tree of every function
+    that takes / releases the thread-channel mutex; all ten are accepted; the only other users of the mutex are ev/select's
+    multi-lock scan (cfun_channel_choice + chan_unlock_args: tested only, known finding deadlock-select-lock-order) and the
+    supervisor push of janet_loop1 (lock; closed ? unlock : push_with_lock) -/
+theorem lock_discipline_current :
+    Gen.ThreadLock.lockProgs.map (·.1) =
+      ["janet_thread_chan_cb", "janet_channel_push_with_lock", "janet_channel_pop_with_lock", "janet_channel_push", "janet_channel_pop",
+       "cfun_channel_close", "cfun_channel_full", "cfun_channel_capacity", "cfun_channel_count", "janet_chan_deinit"] ∧
+    Gen.ThreadLock.lockProgs.all (fun p => LockCert.accepts p.2.1 p.2.2) = true ∧
+    Gen.ThreadLock.outsideCertificate.all (fun f => f ∈ ["cfun_channel_choice", "chan_unlock_args", "janet_loop1"]) = true := by
+  decide
+
+/-- ... hence: every path through each of them releases the mutex exactly once per acquisition and leaves with it released -/
+theorem lock_paths_current (p : String × Bool × LockCert.LS) (hp : p ∈ Gen.ThreadLock.lockProgs) (o : LockCert.Out)
+    (hr : LockCert.Run (.seq p.2.2 .ret) { held := p.2.1 } o) :
+    ∃ s', o = .exit s' ∧ s'.held = false ∧ s'.rel = s'.acq + LockCert.b2n p.2.1 := by
+  have hall := lock_discipline_current.2.1
+  rw [List.all_eq_true] at hall
+  exact lock_paths_release_exactly_once p.2.1 p.2.2 (hall p hp) o hr
 
 end JanetModel.Thread.Current
